@@ -20,9 +20,11 @@ SCOPE = {
     "quick": "universe U0 (language A,B with AB and reflexive AA; 3 candidate assets, two of them with the same name, one "
              "named 'a:2'; 7 link shapes incl. self-link, asset on both sides, repeated asset; 2 attackers): ALL histories of "
              "<=3 operations over a 47-operation alphabet (valid and invalid arguments), and ALL histories of <=3 operations "
-             "after the three candidates have been added; universes U1 (nameless asset + asset named 'A:1') and U2 "
-             "(inheritance, duplicate-named association classes): the same with <=2; "
-             "+ 9000 seeded random histories of 4..12 operations (83-operation alphabet) over the three universes",
+             "(35 operations: the alphabet without add_asset) after the three candidates have been added; universes U1 "
+             "(nameless asset + asset named 'A:1') and U2 (inheritance, duplicate-named association classes): the same "
+             "with <=2; U3 (all candidates constructed without a name): all histories of <=3 link/removal operations after "
+             "the three candidates have been added; + 9000 seeded random histories of 4..12 operations (83-operation "
+             "alphabet) over the four universes",
     "thorough": "as quick with <=4 operations from the empty model over U0 (4.9e6 histories), <=3 everywhere else, and "
                 "150000 random histories of 4..14 operations",
 }
@@ -131,7 +133,7 @@ def cases(tier, seed):
     # the three candidates present, then every continuation (removals need something to remove)
     pre = [["add_asset", 0, None, True], ["add_asset", 1, None, True], ["add_asset", 2, None, True]]
     for (u, n) in ([("U0", 3), ("U1", 2), ("U2", 2)] if tier == "quick" else [("U0", 3), ("U1", 3), ("U2", 3)]):
-        al = alphabet(u)
+        al = [o for o in alphabet(u) if o[0] != "add_asset" or tier != "quick"]
         for k in range(1, n + 1):
             for h in itertools.product(al, repeat=k):
                 yield {"u": u, "ops": pre + list(h), "foreign": True}
@@ -245,12 +247,14 @@ def run_case(recipe):
                     if given is not None and given in gap["names"][0]: det = ":name-held-by-no-live-asset"
                     elif want is not None and want in gap["ids"][0]: det = ":id-held-by-no-live-asset"
                 fail("outcome", fn, "%s is valid per the reference but raised %s: %s" % (where, L.exc_name(exc), str(exc)[:120]),
+                     "structural-eq:RecursionError" if isinstance(exc, RecursionError) else
                      "%s:valid-call-raised:%s%s" % (kind, L.exc_name(exc), det))
             diff = [k for k in before if before[k] != after[k]]
             diffx = [k for k in before_x if before_x[k] != after_x[k]]
             if diff or diffx:
                 ok_atomic = False
                 fail("atomic", fn, "%s raised %s but changed %s" % (where, L.exc_name(exc), ",".join(diff + diffx)),
+                     "structural-eq:RecursionError" if isinstance(exc, RecursionError) else
                      "%s:%s:changed:%s" % (kind, why or "valid", "+".join(diff + diffx)))
             before, before_x = after, after_x
             if why is None or diff:      # primary state no longer that of the reference
